@@ -1,0 +1,28 @@
+//go:build verif
+
+package kubeeventsmanager
+
+// Verification-only exports (build tag "verif").
+
+// VerifEventsEnabled reports whether events of the monitor are unlocked: the
+// monitor-level flag and the flag of every informer created so far.
+func VerifEventsEnabled(m Monitor) (bool, []bool) {
+	mon, ok := m.(*monitor)
+	if !ok || mon == nil {
+		return false, nil
+	}
+	flags := make([]bool, 0)
+	for _, informer := range mon.ResourceInformers {
+		informer.eventBufLock.Lock()
+		flags = append(flags, informer.eventCbEnabled)
+		informer.eventBufLock.Unlock()
+	}
+	mon.VaryingInformers.RangeValue(func(value []*resourceInformer) {
+		for _, informer := range value {
+			informer.eventBufLock.Lock()
+			flags = append(flags, informer.eventCbEnabled)
+			informer.eventBufLock.Unlock()
+		}
+	})
+	return mon.eventsEnabled, flags
+}
